@@ -25,142 +25,201 @@ def spec(pred_stale, has_store, is_source, own, anc, fresh):
     return stale, prop
 
 
+PRED_TEMPLATES = {
+    # name -> list of (local name, store or None, local names of predecessors); the last entry is the predecessor itself
+    "plain": [("p", None, [])],
+    "src1": [("p", (1, True), [])],
+    "src2": [("p", (2, True), [])],
+    "src3": [("p", (3, True), [])],
+    "missing": [("p", (None, False), [])],
+    "plain<-missing": [("q", (None, False), []), ("p", None, ["q"])],
+    "plain<-src3": [("q", (3, True), []), ("p", None, ["q"])],
+    "stored2<-src3": [("q", (3, True), []), ("p", (2, False), ["q"])],
+}
+PROBES = (0.5, 1, 2, 3)
+
+
+def build_case(is_call, store, pred_names, store_truthy=True):
+    """A whole abstract plan, in topological order: the predecessors (with their own ancestors), the node `n` under test, and
+    four stored non-source *probe* calls below n whose own times 0.5 < 1 < 2 < 3 make the time n hands down observable.
+    entries: dict(name, call, store=(own, is_source)|None, truthy, preds=[names])"""
+    nodes = []
+    for i, tn in enumerate(pred_names):
+        for nm, st, ps in PRED_TEMPLATES[tn]:
+            nodes.append(dict(name=f"{nm}{i}", call=True, store=st, truthy=True, preds=[f"{x}{i}" for x in ps]))
+    nodes.append(dict(name="n", call=is_call, store=store, truthy=store_truthy, preds=[f"p{i}" for i in range(len(pred_names))]))
+    for t in PROBES:
+        nodes.append(dict(name=f"probe{t}", call=True, store=(t, False), truthy=True, preds=["n"]))
+    return nodes
+
+
+def spec_plan(nodes, fresh):
+    """Reference semantics over a whole plan -> names of the stored nodes that are stale."""
+    stale, prop = {}, {}
+    for nd in nodes:
+        ps = nd["preds"]
+        ts = [prop[p] for p in ps if prop[p] is not None]
+        anc = max(ts) if ts else None
+        st = nd["store"]
+        stale[nd["name"]], prop[nd["name"]] = spec(any(stale[p] for p in ps), st is not None, bool(st and st[1]), st[0] if st else None, anc, fresh)
+    return {nd["name"] for nd in nodes if nd["store"] is not None and stale[nd["name"]]}
+
+
 def rule_stale_table(ctx, rid, rr):
-    """T1: interpret the stale-check callback over abstract inputs and compare with `spec`."""
+    """T1: the stale check, interpreted end to end on whole abstract plans and compared with `spec_plan` - independent of how the
+    check keeps its per-node state (tables of slots, records, only-stored-nodes ...).  Only the engine (C01: predecessors
+    first), the literal pruner and the time normaliser (C18) are stubbed."""
     m = ctx.model
     stale_f, cb = rr.stale, rr.stalecb
-    CallC, LitC = m.one_class("Call", "T1"), m.one_class("Literal", "T1")
-    RegC, RegValC = m.one_class("Registry", "T1"), m.one_class("RegistryValue", "T1")
-    # names to stub inside STALE: the engine, the literal pruner, the normaliser, scope helper
-    engine_names, pruner_names = set(), set()
-    for c in stale_f.own_calls():
-        fs = m.callee_funcs(stale_f, c)
-        if rr.er.engine in fs and isinstance(c.func, ast.Name):
-            engine_names.add(c.func.id)
-        if any(f.module.name.endswith("pruning") for f in fs) and isinstance(c.func, ast.Name):
-            pruner_names.add(c.func.id)
-    if len(engine_names) != 1:
-        raise AnalysisError("T1: engine call in the stale check not found")
-    norm_f = m.one_func("_to_naive_utc_time", "NORMALISER")
-    times = [None, 1, 2, 3]
-    pred_states = [(False, None), (False, 1), (False, 2), (False, 3), (True, None), (True, 3)]
-    n_cases = n_bad = 0
-    first_bad = []
-    seen_outputs = set()
-    for is_call in (True, False):
-        store_cfgs = [(False, False, None)] + [(True, s, o) for s in (False, True) for o in (None, 2)]
-        for has_store, is_source, own in store_cfgs:
-            for fresh in times:
-                for npred in (0, 1, 2):
-                    for pstates in itertools.product(pred_states, repeat=npred):
-                        n_cases += 1
-                        got = _run_case(m, rr, stale_f, CallC, LitC, RegC, RegValC, engine_names, pruner_names, norm_f,
-                                        is_call, has_store, is_source, own, fresh, pstates)
-                        pred_stale = any(s for s, _ in pstates)
-                        ts = [t for s, t in pstates if t is not None]
-                        anc = max(ts) if ts else None
-                        want = spec(pred_stale, has_store, is_source, own, anc, fresh)
-                        if pred_stale:
-                            want = (True, None)
-                        seen_outputs.add(got)
-                        if got[:2] != want or got[2] != want[0]:
-                            n_bad += 1
-                            if len(first_bad) < 4:
-                                first_bad.append(dict(is_call=is_call, has_store=has_store, is_source=is_source, own=own,
-                                                      fresh=fresh, preds=list(pstates), got_stale=got[0], got_time=got[1],
-                                                      in_returned_set=got[2], want_stale=want[0], want_time=want[1]))
+    cached = getattr(m, "_t1_result", None)
+    if cached is None:
+        H = StaleHarness(m, rr)
+        stores = [None] + [(o, s_) for s_ in (False, True) for o in (None, 2)]
+        pred_sets = [()] + [(a,) for a in PRED_TEMPLATES] + [(a, b) for i, a in enumerate(PRED_TEMPLATES) for b in list(PRED_TEMPLATES)[i:]]
+        import multiprocessing as _mp
+        if _mp.current_process().daemon:
+            # inside a mutation-adequacy worker (thorough tier, one of hundreds of mutants): all single predecessors, selected pairs
+            pred_sets = [()] + [(a,) for a in PRED_TEMPLATES] + [("src3", "missing"), ("src1", "src3"), ("plain", "plain<-missing"),
+                                                                 ("src2", "stored2<-src3"), ("plain<-src3", "src1")]
+        cases = []
+        for is_call in (True, False):
+            for store in stores:
+                for fresh in (None, 1, 2, 3):
+                    for preds in pred_sets:
+                        for truthy in ((True, False) if store is not None and len(preds) <= 1 else (True,)):
+                            # truthy=False: the registered store object is falsy (a store that is also an empty container): whether
+                            # a node has a store is a question of `is None`, not of truthiness
+                            cases.append((is_call, store, fresh, preds, truthy))
+        cached = _run_cases(H, cases)
+        m._t1_result = cached
+    n_cases, n_bad, first_bad, err = cached
+    if err:
+        raise AnalysisError(err)
     ctx.notes["stale_table_cases"] = n_cases
-    ctx.notes["stale_table_exhaustive_over"] = ("node kind x store/source/own-time x fresh_time order type x 0..2 "
-                                                "predecessors in 6 abstract states; times are ranks 1<2<3 (own = 2)")
+    ctx.notes["stale_table_exhaustive_over"] = ("node kind x store/source/own-time (and a falsy store object) x fresh_time rank x 0..2 predecessors from 8 "
+                                                "shapes (plain / fresh source at 3 times / missing / through an unstored call / stale stored) x 4 probes below; "
+                                                "times are ranks 0.5<1<2<3, 'now' = 2.5")
     ctx.ob(rid, f"{cb.short}/decision-table", n_bad == 0, loc(cb),
-           f"staleness decision and propagated time equal the specification on all {n_cases} abstract cases" if n_bad == 0 else
-           f"{n_bad} of {n_cases} abstract cases deviate from the specification; first: {first_bad[0]}",
+           f"the set of stale stored nodes equals the specification on all {n_cases} abstract plans" if n_bad == 0 else
+           f"{n_bad} of {n_cases} abstract plans deviate from the specification; first: {first_bad[0]}",
            "", "; ".join(str(b) for b in first_bad[1:3]))
-    ctx.floor(rid, "abstract staleness cases evaluated", n_cases, 1000)
+    ctx.floor(rid, "abstract staleness cases evaluated", n_cases, 500)
     return n_cases
 
 
-def _run_case(m, rr, stale_f, CallC, LitC, RegC, RegValC, engine_names, pruner_names, norm_f,
-              is_call, has_store, is_source, own, fresh, pstates):
-    result = {}
-    interp = None
+_FORK_HARNESS = [None]
 
-    node = Obj(CallC if is_call else LitC, {"scope": (), "fn": Stub("fn", _noop), "value": None}, name="n")
-    preds = [Obj(CallC, {"scope": (), "fn": Stub("fn", _noop)}, name=f"p{i}") for i in range(len(pstates))]
-    graph = Obj(None, {"predecessors": Stub("predecessors", lambda n: list(preds) if n is node else []),
-                       "nodes": Stub("nodes", lambda: list(preds) + [node])}, name="graph")
-    plan = Obj(None, {"graph": graph}, name="plan")
-    store = Obj(None, {"get_modified_time": Stub("get_modified_time", lambda: own)}, name="store")
-    store.attrs["__class__"] = Obj(None, {"__qualname__": "Store", "__module__": "x"}, name="StoreClass")
-    mapping = {node: Obj(RegValC, {"value_store": store, "is_source": is_source, "stack_frame": None})} if has_store else {}
-    registry = Obj(RegC, {"mapping": mapping}, name="registry")
-    observer = Obj(None, {k: Stub(k, _noop) for k in ("increment_running", "increment_completed", "increment_failed", "increment_total")})
 
-    def engine_stub(g, fn, **kw):
-        # the engine has processed the predecessors already (C01); now it processes `node`
-        env_vars = result["env"].vars
-        # per-node cells: (table, attribute) pairs of record objects stored per node - two tables of one-field slots
-        # today, but one table of two-field records is the same thing.  The stale cell starts False, the time cell None.
-        cells = []
-        for k, v in env_vars.items():
-            if isinstance(v, dict) and v and node in v and all(isinstance(x, Obj) for x in v.values()):
-                for attr, init in v[node].attrs.items():
-                    if init is False or init is None:
-                        cells.append((v, attr, init))
-            elif isinstance(v, dict) and v and node in v and all(x is False or x is None for x in v.values()) and \
-                    all(isinstance(k2, Obj) for k2 in v):
-                cells.append((v, None, v[node]))  # the table holds the value itself
-        stale_c = [c for c in cells if c[2] is False]
-        time_c = [c for c in cells if c[2] is None]
-        if len(stale_c) != 1 or len(time_c) != 1:
-            raise AnalysisError("T1: cannot identify the per-node stale flag (initially False) and modified-time cell (initially None) in the stale check")
-        (st_tbl, st_attr, _), (tm_tbl, tm_attr, _) = stale_c[0], time_c[0]
-
-        def put(tbl, attr, key, val):
-            if attr is None:
-                tbl[key] = val
-            else:
-                tbl[key].attrs[attr] = val
-
-        def get(tbl, attr, key):
-            return tbl[key] if attr is None else tbl[key].attrs[attr]
-        for p, (ps, pt) in zip(preds, pstates):
-            put(st_tbl, st_attr, p, ps)
-            put(tm_tbl, tm_attr, p, pt)
-        interp.call(fn, [node], {})
-        result["stale"] = get(st_tbl, st_attr, node)
-        result["time"] = get(tm_tbl, tm_attr, node)
-        return None
-
-    stubs = {n: Stub(n, engine_stub) for n in engine_names}
-    for n in pruner_names:
-        stubs[n] = Stub(n, lambda p, **kw: p)
-    stubs[norm_f.name] = Stub(norm_f.name, lambda v: v)
-    stubs["_get_stale_scope"] = Stub("_get_stale_scope", lambda *a: ())
-    interp = Interp(m, stubs=stubs, ext={"builtins.type": lambda x: interp.class_val(x.cls) if isinstance(x, Obj) and x.cls else type(x)})
-    env = Env(stale_f, Env(stale_f.module))
-    params = {"plan": plan, "registry": registry, "retry": Stub("retry", lambda f: f), "max_workers": None,
-              "fresh_time": fresh, "progress_observer": observer}
-    for p in stale_f.params:
-        if p not in params:
-            raise AnalysisError(f"T1: unexpected parameter {p} of the stale check")
-        env.vars[p] = params[p]
-    result["env"] = env
-    ret = None
+def _case_chunk(chunk):
+    H = _FORK_HARNESS[0]
+    bad = []
     try:
-        interp.exec_block(stale_f.node.body, env)
-    except AbsRaise as e:
-        raise AnalysisError(f"T1: abstract evaluation raised {e.value!r}")
-    except Exception as e:
-        from ..absval import _Return
-        if isinstance(e, _Return):
-            ret = e.value
+        for is_call, store, fresh, preds, truthy in chunk:
+            nodes = build_case(is_call, store, preds, truthy)
+            got = H.run(nodes, fresh)
+            want = spec_plan(nodes, fresh)
+            if got != want:
+                bad.append(dict(node="call" if is_call else "literal", store=None if store is None else dict(own=store[0], source=store[1], falsy=not truthy),
+                                fresh=fresh, predecessors=list(preds), wrongly_stale=sorted(got - want), wrongly_fresh=sorted(want - got)))
+    except AnalysisError as e:
+        return bad, str(e)
+    return bad, None
+
+
+def _run_cases(H, cases):
+    """Evaluate the cases on forked workers (the model is shared copy-on-write; nothing is pickled but the case tuples)."""
+    import multiprocessing as mp
+    import os
+    _FORK_HARNESS[0] = H
+    n = max(1, min(8, (os.cpu_count() or 2) // 2))
+    chunks = [cases[i::n * 4] for i in range(n * 4)]
+    try:
+        if n > 1 and not mp.current_process().daemon:
+            with mp.get_context("fork").Pool(n) as pool:
+                res = pool.map(_case_chunk, chunks)
         else:
-            raise
-    if "stale" not in result:
-        raise AnalysisError("T1: the stale check did not invoke the engine on the abstract plan")
-    in_set = ret is not None and node in ret
-    return (bool(result["stale"]), result["time"], in_set)
+            res = [_case_chunk(c) for c in chunks]
+    finally:
+        _FORK_HARNESS[0] = None
+    bad = [b for r, _e in res for b in r]
+    errs = [e for _r, e in res if e]
+    bad.sort(key=lambda d: (len(d["predecessors"]), str(d)))
+    return len(cases), len(bad), bad[:3], (errs[0] if errs else None)
+
+
+class StaleHarness:
+    def __init__(self, m, rr):
+        self.m, self.rr = m, rr
+        self.stale_f = rr.stale
+        self.CallC, self.LitC = m.one_class("Call", "T1"), m.one_class("Literal", "T1")
+        self.RegC, self.RegValC = m.one_class("Registry", "T1"), m.one_class("RegistryValue", "T1")
+        self.engine_names, self.pruner_names = set(), set()
+        for c in self.stale_f.own_calls():
+            fs = m.callee_funcs(self.stale_f, c)
+            if rr.er.engine in fs and isinstance(c.func, ast.Name):
+                self.engine_names.add(c.func.id)
+            if any(f.module.name.endswith("pruning") for f in fs) and isinstance(c.func, ast.Name):
+                self.pruner_names.add(c.func.id)
+        if len(self.engine_names) != 1:
+            raise AnalysisError("T1: engine call in the stale check not found")
+        self.norm_f = m.one_func("_to_naive_utc_time", "NORMALISER")
+        self.storecls = Obj(None, {"__qualname__": "Store", "__module__": "x", "__name__": "Store"}, name="StoreClass")
+        self.observer = Obj(None, {k: Stub(k, _noop) for k in ("increment_running", "increment_completed", "increment_failed", "increment_total")})
+
+    def run(self, nodes, fresh):
+        from .rewriterules import MG
+        m = self.m
+        interp = None
+        objs = {}
+        order = []
+        mapping = {}
+        for nd in nodes:
+            o = Obj(self.CallC if nd["call"] else self.LitC, {"scope": (), "fn": Stub("fn", _noop), "value": None, "stack_frame": None}, name=nd["name"])
+            objs[nd["name"]] = o
+            order.append(o)
+            if nd["store"] is not None:
+                own = nd["store"][0]
+                st = Obj(None, {"get_modified_time": Stub("get_modified_time", lambda own=own: own)}, name="store", truthy=nd["truthy"])
+                st.attrs["__class__"] = self.storecls
+                mapping[o] = Obj(self.RegValC, {"value_store": st, "is_source": nd["store"][1], "stack_frame": None})
+
+        def engine_stub(g, fn, **kw):
+            # the engine processes every node after its predecessors (C01)
+            for o in order:
+                interp.call(fn, [o], {})
+            return None
+        stubs = {n: Stub(n, engine_stub) for n in self.engine_names}
+        for n in self.pruner_names:
+            stubs[n] = Stub(n, lambda p, **kw: p)
+        stubs[self.norm_f.name] = Stub(self.norm_f.name, lambda v: v)
+        stubs["_get_stale_scope"] = Stub("_get_stale_scope", lambda *a: ())
+        now = lambda *a, **k: 2.5
+        interp = Interp(m, stubs=stubs, ext={"builtins.type": lambda x: interp.class_val(x.cls) if isinstance(x, Obj) and x.cls else type(x),
+                                             "datetime.datetime.now": now, "datetime.datetime.utcnow": now, "time.time": now})
+        g = MG(interp)
+        for nd in nodes:
+            g.add_node(objs[nd["name"]])
+        dep = Obj(m.one_class("Dependency", "T1"), {}, name="dep")
+        for nd in nodes:
+            for p in nd["preds"]:
+                g.add_edge(objs[p], objs[nd["name"]], dep)
+        plan = Obj(None, {"graph": g}, name="plan")
+        registry = Obj(self.RegC, {"mapping": mapping}, name="registry")
+        params = {"plan": plan, "registry": registry, "retry": Stub("retry", lambda f: f), "max_workers": None,
+                  "fresh_time": fresh, "progress_observer": self.observer}
+        sf = self.stale_f
+        for p in sf.params:
+            if p not in params:
+                raise AnalysisError(f"T1: unexpected parameter {p} of the stale check")
+        try:
+            ret = interp.call_func(sf, None, [params[p] for p in sf.pos_params], {p: params[p] for p in sf.kwonly_params})
+        except AbsRaise as e:
+            raise AnalysisError(f"T1: abstract evaluation raised {e.value!r}")
+        try:
+            members = set(id(x) for x in ret)
+        except TypeError:
+            raise AnalysisError("T1: the stale check does not return a collection of nodes")
+        return {nd["name"] for nd in nodes if nd["store"] is not None and id(objs[nd["name"]]) in members}
 
 
 # ------------------------------------------------------------------------------------------------ T2
